@@ -417,13 +417,20 @@ Proof. intros L v Hv. exact (L v Hv). Qed.
 Lemma empty_all_live s : live_inv s -> live_inv (empty_all s).
 Proof. unfold empty_all. intros L. destruct (par s); apply heap_only_live; exact L. Qed.
 
+Lemma relabel_live s p c q : par s = Single p c -> live_inv s -> live_inv (set_par s (Single q c)).
+Proof.
+  intros Ps L v Hv. simpl in Hv. destruct (L v Hv) as [A B]. split; [exact A|].
+  intros Hin. destruct (B Hin) as (r & Hr & _). congruence.
+Qed.
+
 Lemma restore_live s d s' : live_inv s -> restore s d = Ok s' -> live_inv s'.
 Proof.
   unfold restore. intros L H.
   destruct (set_phases (empty_all s) (fun p => isSome (sd_rows d p)) false) as [s1|e] eqn:S1; [|discriminate].
   simpl in H. assert (L1 : live_inv s1) by (eapply set_phases_live; [apply empty_all_live; exact L|exact S1]).
   destruct (par s1) as [p c|r] eqn:P1.
-  - destruct (sd_single d) as [q|]; [|discriminate]. destruct (sd_rows d q) as [v|]; [|discriminate].
+  - destruct (match sd_single d with Some q => Some q | None => hd_error (pset_list (fun p0 => isSome (sd_rows d p0))) end) as [q|]; [|discriminate].
+    destruct (sd_rows d q) as [v|]; [|discriminate].
     simpl in H. inversion H; subst. intros w Hw. simpl in *. destruct (L1 w Hw) as [A B].
     split; [exact A|]. intros Hin. destruct (B Hin) as (r & Hr & _). congruence.
   - destruct (sd_single d) as [q|]; [discriminate|]. simpl in H. inversion H; subst.
@@ -452,8 +459,8 @@ Proof.
     + destruct (pset_list (rset r)); [discriminate|]. eapply set_phase_live; eauto.
     + eapply set_phase_live; eauto.
     + discriminate.
-  - unfold accessor in H. destruct (acc_pair a) as [x y]. destruct (par s) as [p c|r].
-    + eapply set_phases_live; eauto.
+  - unfold accessor in H. destruct (acc_pair a) as [x y]. destruct (par s) as [p c|r] eqn:Ps.
+    + eapply set_phases_live; [eapply relabel_live; eauto|exact H].
     + destruct (rset r x && rset r y); [inversion H; subst; exact L|]. eapply set_phases_live; eauto.
   - unfold get_view in H. destruct (par s) as [p c|r] eqn:Ps.
     + destruct (lower_eqb l p); [|discriminate]. inversion H; subst. intros v Hv. exact (L v Hv).
@@ -831,10 +838,24 @@ Proof.
     apply Hh. destruct Hp as [Hr _]. eapply Hr; eauto.
 Qed.
 
+(* the operation does not rewrite the stream's phase label: everything but .vle/.lle/.sle of a
+   single-phase Stream whose label the accessor replaces by 'l' *)
+Definition norelabel (s : st) (o : op) : Prop :=
+  match o with
+  | OAcc a => match par s with Single p _ => acc_phase a p = p | Multi _ => True end
+  | _ => True
+  end.
+
+Lemma set_par_same s r : par s = r -> set_par s r = s.
+Proof. intros <-. destruct s; reflexivity. Qed.
+
+Lemma relabel_wf s p c q : par s = Single p c -> wf s -> wf (set_par s (Single q c)).
+Proof. intros Ps (A & B & C & D). rewrite Ps in B. repeat split; simpl; auto. Qed.
+
 Lemma step_conv s o s' :
-  conversion o = true -> wf s -> step s o = Ok s' -> conv_res s s'.
+  conversion o = true -> norelabel s o -> wf s -> step s o = Ok s' -> conv_res s s'.
 Proof.
-  intros C W H. destruct o; simpl in C; try discriminate; simpl in H.
+  intros C NR W H. destruct o; simpl in C; try discriminate; simpl in H.
   - apply conv_ok_res. eapply set_phases_conv; eauto.
   - apply conv_ok_res. eapply set_phase_conv; eauto.
   - unfold reduce_phases in H. destruct (par s).
@@ -846,8 +867,9 @@ Proof.
       * destruct (pset_list (rset r)); [discriminate|]. apply conv_ok_res. eapply set_phase_conv; eauto.
       * apply conv_ok_res. eapply set_phase_conv; eauto.
       * discriminate.
-  - unfold accessor in H. destruct (acc_pair a) as [x y]. destruct (par s) as [p c|r].
-    + apply conv_ok_res. eapply set_phases_conv; eauto.
+  - unfold accessor in H. destruct (acc_pair a) as [x y]. simpl in NR. destruct (par s) as [p c|r] eqn:Ps.
+    + rewrite NR in H. rewrite (set_par_same s (Single p c) Ps) in H.
+      apply conv_ok_res. eapply set_phases_conv; eauto.
     + destruct (rset r x && rset r y).
       * inversion H; subst. apply conv_ok_res. apply conv_refl. exact W.
       * apply conv_ok_res. eapply set_phases_conv; eauto.
@@ -861,6 +883,32 @@ Proof.
     pose proof (snapshot_wf s W) as SW. destruct W as (A & B & D & E).
     split; [exact A|]. split; [exact B|]. split; [exact D|]. simpl.
     apply Forall_app. split; [exact E|]. constructor; [exact SW|constructor].
+Qed.
+
+(* totals, T, P and well-formedness survive EVERY conversion, the relabelling accessors included *)
+Definition conv_res0 (s s' : st) : Prop :=
+  wf s' /\ nch s' = nch s /\ TP_same s s' /\ (forall j, total s' j == total s j).
+
+Lemma relabel_conv s p c q : par s = Single p c -> wf s -> conv_ok s (set_par s (Single q c)).
+Proof.
+  intros Ps W. apply (to_single_conv s q _ W). unfold to_single. rewrite Ps. reflexivity.
+Qed.
+
+Lemma step_conv0 s o s' :
+  conversion o = true -> wf s -> step s o = Ok s' -> conv_res0 s s'.
+Proof.
+  intros C W H.
+  assert (Gen : norelabel s o -> conv_res0 s s').
+  { intros NR. destruct (step_conv s o s' C NR W H) as (A & B & D & E & _). split; [exact A|]. split; [exact B|]. split; [exact D|exact E]. }
+  destruct o; try (apply Gen; exact I).
+  simpl in H. unfold accessor in H. destruct (acc_pair a) as [x y] eqn:Ea.
+  destruct (par s) as [p c|r] eqn:Ps.
+  - destruct (relabel_conv s p c (acc_phase a p) Ps W) as (W1 & F1 & T1 & _).
+    destruct (set_phases_conv _ _ _ _ W1 H) as (W' & F' & T' & _).
+    pose proof (frame_TP _ _ F1) as [TA PA]. pose proof (frame_TP _ _ F') as [TB PB].
+    split; [exact W'|]. split; [destruct F1 as (n1 & _); destruct F' as (n' & _); congruence|].
+    split; [split; congruence|]. intros j. rewrite T'. apply T1.
+  - apply Gen. simpl. rewrite Ps. exact I.
 Qed.
 
 (* ================= accessors move nothing ================= *)
@@ -898,19 +946,31 @@ Proof.
   - intros H. exists p. split; [exact H|apply phase_eqb_refl].
 Qed.
 
+(* the stream's phase already is one of the two phases of the equilibrium (always so for a MultiStream) *)
+Definition acc_in_pair (s : st) (a : acc) : Prop :=
+  match par s with
+  | Single p _ => p = fst (acc_pair a) \/ p = snd (acc_pair a)
+  | Multi _ => True
+  end.
+
+Lemma in_pair_norelabel a p : p = fst (acc_pair a) \/ p = snd (acc_pair a) -> acc_phase a p = p.
+Proof. destruct a; simpl; intros [->| ->]; reflexivity. Qed.
+
 Lemma accessor_keeps s a s' :
-  wf s -> accessor s a = Ok s' ->
+  wf s -> accessor s a = Ok s' -> acc_in_pair s a ->
   covers s (pset_now s') /\ (forall q j, fl s' q j == fl s q j) /\
   (forall p, pset_now s p = true -> pset_now s' p = true).
 Proof.
-  intros W H. unfold accessor in H. destruct (acc_pair a) as [x y] eqn:Ea.
+  intros W H IP. unfold accessor in H. unfold acc_in_pair in IP. destruct (acc_pair a) as [x y] eqn:Ea.
   assert (Hxy : x <> y) by (destruct a; inversion Ea; subst; discriminate).
   destruct (par s) as [p0 c|r] eqn:Ps.
-  - assert (Hc : pset_card (pset_of [p0; x; y]) <> 1%nat).
+  - simpl in IP. rewrite (in_pair_norelabel a p0) in H by (rewrite Ea; exact IP).
+    rewrite (set_par_same s (Single p0 c) Ps) in H.
+    assert (Hc : pset_card (pset_of [x; y]) <> 1%nat).
     { apply (card_two _ x y); auto; apply pset_of_in; simpl; auto. }
-    assert (Sup : forall p, pset_now s p = true -> pset_of [p0; x; y] p = true).
+    assert (Sup : forall p, pset_now s p = true -> pset_of [x; y] p = true).
     { intros p Hp. unfold pset_now in Hp. rewrite Ps in Hp. apply phase_eqb_eq in Hp. subst.
-      apply pset_of_in. simpl; auto. }
+      apply pset_of_in. simpl. destruct IP as [->| ->]; auto. }
     destruct (superset_keeps s _ s' W H Hc Sup) as [A B]. split; [exact A|]. split; [exact B|].
     destruct (set_phases_multi_target s _ s' W H Hc) as (_ & _ & PN & _).
     intros p Hp. rewrite PN. apply Sup. exact Hp.
@@ -1088,7 +1148,9 @@ Proof.
       * destruct (sd_rows d p); [discriminate|]. congruence.
   - (* snapshot of a MultiStream *)
     destruct (set_phases_multi_target _ _ _ W0 S1 Hprop) as (_ & _ & PN & _).
-    destruct (par s1) as [q c|r] eqn:P1; [discriminate|]. simpl in H. inversion H; subst s'. clear H.
+    destruct (par s1) as [q c|r] eqn:P1.
+    { exfalso. apply Hprop. apply (card_one_hd t q). intros p. rewrite <- PN. unfold pset_now. rewrite P1. reflexivity. }
+    simpl in H. inversion H; subst s'. clear H.
     simpl in Hp1.
     assert (Hd' : forall p v, sd_rows d p = Some v -> length v = nch s1) by (intros p v X; rewrite n1, n0; eapply Hd; eauto).
     destruct (copy_rows_spec r (sd_rows d) (nch s1) all_phases (heap s1) all_phases_nodup Hh1 Hp1 Hd')
@@ -1155,34 +1217,42 @@ Qed.
 Lemma same_par_proper s s' : par s' = par s -> proper_state s -> proper_state s'.
 Proof. unfold proper_state. intros ->. auto. Qed.
 
+Lemma conv_ok_wf_frame s s' : conv_ok s s' -> wf s' /\ frame s s'.
+Proof. intros (A & B & _). split; auto. Qed.
+Lemma frame_trans a b c : frame a b -> frame b c -> frame a c.
+Proof. intros (A1 & A2 & A3 & A4 & A5) (B1 & B2 & B3 & B4 & B5). repeat split; congruence. Qed.
+
 Lemma step_good s o s' :
   good s -> step s o = Ok s' ->
   good s' /\ nch s' = nch s /\ exists l, saved s' = saved s ++ l.
 Proof.
   intros (W & Pr & Sp) H.
-  assert (ConvCase : conv_ok s s' -> proper_state s' -> good s' /\ nch s' = nch s /\ exists l, saved s' = saved s ++ l).
-  { intros (W' & (En & _ & _ & Es & _) & _) Pr'. split; [split; [exact W'|split; [exact Pr'|rewrite Es; exact Sp]]|].
+  assert (ConvCase : wf s' /\ frame s s' -> proper_state s' -> good s' /\ nch s' = nch s /\ exists l, saved s' = saved s ++ l).
+  { intros (W' & (En & _ & _ & Es & _)) Pr'. split; [split; [exact W'|split; [exact Pr'|rewrite Es; exact Sp]]|].
     split; [exact En|]. exists []. rewrite app_nil_r. exact Es. }
   assert (Same : wf s' -> par s' = par s -> nch s' = nch s -> saved s' = saved s ->
                  good s' /\ nch s' = nch s /\ exists l, saved s' = saved s ++ l).
   { intros W' Ep En Es. split; [split; [exact W'|split; [eapply same_par_proper; eauto|rewrite Es; exact Sp]]|].
     split; [exact En|]. exists []. rewrite app_nil_r. exact Es. }
   destruct o; simpl in H.
-  - apply ConvCase; [eapply set_phases_conv; eauto|eapply set_phases_proper; eauto].
-  - apply ConvCase; [eapply set_phase_conv; eauto|eapply set_phase_proper; eauto].
+  - apply ConvCase; [apply conv_ok_wf_frame; eapply set_phases_conv; eauto|eapply set_phases_proper; eauto].
+  - apply ConvCase; [apply conv_ok_wf_frame; eapply set_phase_conv; eauto|eapply set_phase_proper; eauto].
   - unfold reduce_phases in H. destruct (par s) eqn:Ps.
     + inversion H; subst. apply Same; auto.
-    + apply ConvCase; [eapply set_phase_conv; eauto|eapply set_phase_proper; eauto].
+    + apply ConvCase; [apply conv_ok_wf_frame; eapply set_phase_conv; eauto|eapply set_phase_proper; eauto].
   - unfold as_stream in H. destruct (par s) as [|r] eqn:Ps.
     + inversion H; subst. apply Same; auto.
-    + destruct (phase_string (heap s) r) as [|q [|q' l']]; [|apply ConvCase; [eapply set_phase_conv; eauto|eapply set_phase_proper; eauto]|discriminate].
+    + destruct (phase_string (heap s) r) as [|q [|q' l']]; [|apply ConvCase; [apply conv_ok_wf_frame; eapply set_phase_conv; eauto|eapply set_phase_proper; eauto]|discriminate].
       destruct (pset_list (rset r)); [discriminate|].
-      apply ConvCase; [eapply set_phase_conv; eauto|eapply set_phase_proper; eauto].
+      apply ConvCase; [apply conv_ok_wf_frame; eapply set_phase_conv; eauto|eapply set_phase_proper; eauto].
   - unfold accessor in H. destruct (acc_pair a) as [x y]. destruct (par s) as [p c|r] eqn:Ps.
-    + apply ConvCase; [eapply set_phases_conv; eauto|eapply set_phases_proper; eauto].
+    + destruct (relabel_conv s p c (acc_phase a p) Ps W) as (W1 & F1 & _).
+      destruct (set_phases_conv _ _ _ _ W1 H) as (W' & F' & _).
+      apply ConvCase; [split; [exact W'|exact (frame_trans _ _ _ F1 F')]|].
+      eapply (set_phases_proper _ _ _ _ W1); [exact I|exact H].
     + destruct (rset r x && rset r y).
       * inversion H; subst. apply Same; auto.
-      * apply ConvCase; [eapply set_phases_conv; eauto|eapply set_phases_proper; eauto].
+      * apply ConvCase; [apply conv_ok_wf_frame; eapply set_phases_conv; eauto|eapply set_phases_proper; eauto].
   - unfold get_view in H. destruct (par s) as [p c|r] eqn:Ps.
     + destruct (lower_eqb l p); [|discriminate]. inversion H; subst. apply Same; auto.
     + destruct (find_cached (views s) l 0); [inversion H; subst; apply Same; auto|].
@@ -1272,7 +1342,7 @@ Proof.
   - inversion H; subst. repeat split; reflexivity.
   - inversion F as [|? ? Co Fo]; subst.
     destruct (step s o) as [s1|e] eqn:S1; [|discriminate]. simpl in H.
-    destruct (step_conv s o s1 Co (proj1 G) S1) as (_ & _ & (T1 & P1) & Tot1 & _).
+    destruct (step_conv0 s o s1 Co (proj1 G) S1) as (_ & _ & (T1 & P1) & Tot1).
     destruct (step_good s o s1 G S1) as (G1 & _).
     destruct (IH s1 s' G1 Fo H) as (Tot & T2 & P2).
     split; [intros j; rewrite Tot; apply Tot1|]. split; congruence.
@@ -1392,8 +1462,9 @@ Proof.
   - unfold as_stream in H. destruct (par s) as [|r]; [inversion H; subst; apply stays_same; reflexivity|].
     destruct (phase_string (heap s) r) as [|q [|q' l']]; [|eapply set_phase_stays; eauto|discriminate].
     destruct (pset_list (rset r)); [discriminate|]. eapply set_phase_stays; eauto.
-  - unfold accessor in H. destruct (acc_pair a) as [x y]. destruct (par s) as [p c|r].
-    + eapply set_phases_stays; eauto.
+  - unfold accessor in H. destruct (acc_pair a) as [x y]. destruct (par s) as [p c|r] eqn:Ps.
+    + apply (stays_trans_same s (set_par s (Single (acc_phase a p) c)) s'); [reflexivity|].
+      eapply set_phases_stays; [eapply relabel_live; eauto|exact H].
     + destruct (rset r x && rset r y); [inversion H; subst; apply stays_same; reflexivity|].
       eapply set_phases_stays; eauto.
   - unfold get_view in H. destruct (par s) as [p c|r].
@@ -1424,7 +1495,8 @@ Proof.
     assert (Fin : views s' = views s1 /\ is_multi s' = is_multi s1 /\
                   (is_multi s1 = true -> forall p, resolve (pset_now s') p = resolve (pset_now s1) p)).
     { destruct (par s1) as [p c|r] eqn:P1.
-      - destruct (sd_single d) as [q|]; [|discriminate]. destruct (sd_rows d q); [|discriminate].
+      - destruct (match sd_single d with Some q => Some q | None => hd_error (pset_list (fun p0 => isSome (sd_rows d p0))) end) as [q|]; [|discriminate].
+        destruct (sd_rows d q); [|discriminate].
         simpl in H. inversion H; subst. unfold is_multi; simpl. rewrite P1. repeat split. discriminate.
       - destruct (sd_single d); [discriminate|]. simpl in H. inversion H; subst.
         unfold is_multi, pset_now; simpl. rewrite P1. repeat split. }
@@ -1581,4 +1653,38 @@ Proof.
         { rewrite (fl_multi s r0 p j Ps). unfold rowv. rewrite Rp. reflexivity. }
         rewrite <- X. apply Cv. rewrite (resolve_ext t (rset r) p) by (intros x; symmetry; apply Hset). exact Rn.
       * rewrite M. simpl. eexists; reflexivity.
+Qed.
+
+(* ================= accessors: placement whenever the label is not rewritten ================= *)
+Lemma covers_self s : covers s (pset_now s).
+Proof.
+  intros p j Rn. unfold pset_now in Rn. destruct (par s) as [q0 c|r] eqn:Ps.
+  - rewrite (fl_single s q0 c p j Ps). destruct (phase_eqb p q0) eqn:E; [|reflexivity].
+    rewrite (resolve_self _ p E) in Rn. discriminate.
+  - rewrite (fl_multi s r p j Ps). unfold rowv. destruct (r p) eqn:Rp; [|reflexivity].
+    rewrite (resolve_self (rset r) p) in Rn; [discriminate|]. unfold rset. rewrite Rp. reflexivity.
+Qed.
+
+Lemma accessor_placement_partial s a s' :
+  wf s -> norelabel s (OAcc a) -> step s (OAcc a) = Ok s' ->
+  covers s (pset_now s') /\ placed s s'.
+Proof.
+  intros W NR H.
+  destruct (step_conv s (OAcc a) s' eq_refl NR W H) as (_ & _ & _ & _ & Pl).
+  assert (Cv : covers s (pset_now s')).
+  { simpl in H, NR. unfold accessor in H. destruct (acc_pair a) as [x y] eqn:Ea.
+    assert (Hxy : x <> y) by (destruct a; inversion Ea; subst; discriminate).
+    destruct (par s) as [p c|r] eqn:Ps.
+    - rewrite NR in H. rewrite (set_par_same s (Single p c) Ps) in H.
+      assert (Hc : pset_card (pset_of [x; y]) <> 1%nat).
+      { apply (card_two _ x y); auto; apply pset_of_in; simpl; auto. }
+      destruct (set_phases_multi_target s _ s' W H Hc) as (_ & _ & PN & Cv & _).
+      intros p0 j Rn. apply Cv. rewrite (resolve_ext _ (pset_now s') p0) by (intros z; symmetry; apply PN). exact Rn.
+    - destruct (rset r x && rset r y).
+      + inversion H; subst. apply covers_self.
+      + assert (Hc : pset_card (pset_union (rset r) (pset_of [x; y])) <> 1%nat).
+        { apply (card_two _ x y); auto; unfold pset_union; apply orb_true_iff; right; apply pset_of_in; simpl; auto. }
+        destruct (set_phases_multi_target s _ s' W H Hc) as (_ & _ & PN & Cv & _).
+        intros p0 j Rn. apply Cv. rewrite (resolve_ext _ (pset_now s') p0) by (intros z; symmetry; apply PN). exact Rn. }
+  split; [exact Cv|apply Pl; exact Cv].
 Qed.
